@@ -1,6 +1,17 @@
+mod c01;
+mod c02;
 mod c03;
+mod c04;
+mod c05;
+mod c09;
+mod c10;
+mod c15;
+mod c18;
 mod common;
 mod cursor_bfs;
+mod files;
+mod qcheck;
+mod query;
 
 use vlib::report::{quiet_panics, read_replay, Tier};
 
@@ -11,6 +22,7 @@ fn usage() -> ! {
 
 fn main() {
     let args: Vec<String> = std::env::args().collect();
+    if args.len() == 2 && args[1] == "bench01" { c01::bench(); return; }
     if args.len() < 3 {
         usage();
     }
@@ -23,6 +35,14 @@ fn main() {
         let doc = read_replay(&args[3]);
         let case = &doc["case"];
         match id.as_str() {
+            "C01" => c01::replay(case),
+            "C02" => c02::replay(case),
+            "C04" => c04::replay(case),
+            "C05" => c05::replay(case),
+            "C09" => c09::replay(case),
+            "C15" => c15::replay(case),
+            "C10" => c10::replay(case),
+            "C18" => c18::replay(case),
             "C03" => c03::replay(case),
             _ => usage(),
         }
@@ -33,6 +53,14 @@ fn main() {
             _ => usage(),
         };
         match id.as_str() {
+            "C01" => c01::run(tier),
+            "C02" => c02::run(tier),
+            "C04" => c04::run(tier),
+            "C05" => c05::run(tier),
+            "C09" => c09::run(tier),
+            "C15" => c15::run(tier),
+            "C10" => c10::run(tier),
+            "C18" => c18::run(tier),
             "C03" => c03::run(tier),
             _ => usage(),
         }
